@@ -30,11 +30,11 @@ theorem process_accepting_inv {cfg mac resolve now ing h pm raw}
     ∃ s0 s1, Passed cfg mac now ing h pm raw s0 s1 := by
   unfold process at hacc
   cases e0 : stParse h pm raw with
-  | error r => simp only [e0] at hacc; simp [(stParse_err e0).1, Disp.accepting] at hacc
+  | error r => simp only [e0] at hacc; simp [(stParse_err e0).1] at hacc
   | ok s0 =>
     simp only [e0] at hacc
     cases e1 : stSegID h ing s0 with
-    | error r => simp only [e1] at hacc; simp [stSegID_err e1, Disp.accepting] at hacc
+    | error r => simp only [e1] at hacc; simp [stSegID_err e1] at hacc
     | ok s1 =>
       simp only [e1] at hacc
       cases e2 : stValidate1 h now ing s1 with
@@ -90,7 +90,7 @@ theorem outbound_accepting_inv' {cfg mac h now ing s} (r : Disp × Bytes)
           cases e3 : stProcessEgress h s6 with
           | error r' =>
             simp only [e3] at hr; subst hr
-            simp [stProcessEgress_err e3, Disp.accepting] at hacc
+            simp [stProcessEgress_err e3] at hacc
           | ok s7 =>
             simp only [e3] at hr; subst hr
             exact ⟨s6, l, e0, e1, e2, rfl, Or.inl ⟨hs, s7, e3, rfl⟩⟩
